@@ -381,6 +381,69 @@ def rule_complete(ctx, tu):
     ctx.floor(R, 4)
 
 
+def rule_fetch_py(ctx, py):
+    """C09.FETCH-PY -- what a trajectory holds is what the engine recorded: in the two fetch methods of LibRDEngine the array
+    handed to the caller is filled from the buffer the native getter wrote, element by element, and from nothing else (no
+    sample is replaced by the script's state, no time is re-computed on the Python side)."""
+    R = "C09.FETCH-PY"
+    import ast
+    from .. import pyfe
+    n = 0
+    for q, getter in (("librdengine.LibRDEngine._get_data", "engineexport_get_trajectory"),
+                      ("librdengine.LibRDEngine._get_t_sample", "engineexport_get_tsample")):
+        f = py.fn(q)
+        calls = [c for c in pyfe.calls_in(f) if pyfe.call_name(c).endswith(getter)]
+        ctx.need(len(calls) == 1 and calls[0].args and isinstance(calls[0].args[0], ast.Name), R, "%s: call of %s not found" % (q, getter))
+        buf = calls[0].args[0].id
+        # names that carry the engine's data: the buffer, what is computed from it, and arrays filled from those
+        derived = {buf}
+
+        def base(t):
+            b_ = t
+            while isinstance(b_, (ast.Subscript, ast.Attribute)):
+                b_ = b_.value
+            return b_.id if isinstance(b_, ast.Name) else None
+
+        def names(e):
+            """names whose *contents* flow into e (metadata reads -- .units, .shape, len(..) -- carry no sample)"""
+            out = set()
+
+            def rec(x):
+                if isinstance(x, ast.Attribute) and x.attr in ("units", "shape", "dtype", "size", "ndim", "units_system"):
+                    return
+                if isinstance(x, ast.Call) and pyfe.call_name(x) in ("len", "range", "type", "isinstance"):
+                    return
+                if isinstance(x, ast.Name):
+                    out.add(x.id)
+                for c_ in ast.iter_child_nodes(x):
+                    rec(c_)
+            rec(e)
+            return out
+        for _ in range(5):
+            for st in ast.walk(f):
+                if isinstance(st, ast.Assign) and len(st.targets) == 1:
+                    t = st.targets[0]
+                    if names(st.value) & derived and base(t) is not None and st.lineno > calls[0].lineno:
+                        derived.add(base(t))
+        rets = [r for r in ast.walk(f) if isinstance(r, ast.Return) and r.value is not None]
+        ctx.need(rets, R, "%s: no return" % q)
+        for r in rets:
+            n += 1
+            ctx.check(bool(names(r.value) & derived), R, r, q, "return " + pyfe.src(r.value)[:50], "built from the buffer the native "
+                      "getter filled", "what is returned is not built from the engine's buffer")
+        for st in ast.walk(f):
+            tg = st.targets if isinstance(st, ast.Assign) else [st.target] if isinstance(st, ast.AugAssign) else []
+            for t in tg:
+                if isinstance(t, ast.Name) or base(t) not in derived or base(t) == buf:
+                    continue
+                n += 1
+                ctx.check(bool(names(st.value) & derived), R, st, q, pyfe.src(st)[:70], "filled from the native buffer",
+                          "`%s` writes into the fetched data from another source than the engine's buffer: the sample the "
+                          "caller sees is not the one the engine recorded (processed initial state, chemostated entries, totals)"
+                          % pyfe.src(st)[:60])
+    ctx.floor(R, 4)
+
+
 def pya_atoms(t):
     from .. import pya
     return pya.atoms(t, True)
@@ -414,6 +477,7 @@ def run(ctx):
     rule_policy_tab(ctx, tu, py)
     rule_handlers(ctx, tu)
     rule_complete(ctx, tu)
+    rule_fetch_py(ctx, py)
     rule_tmax(ctx, py)
     from .. import ffi
     from . import c11
